@@ -72,4 +72,62 @@ maybe theorem tie_iter_over_range (sb eb : Bound) (s : Sys) (h : Inv s.buf) :
              | ok it0 =>
                simp only [tie_iter_advance_front_by, tie_iter_advance_back_by, liftE_bind])
 
+/-! ### `IterMut`: its own copy of the same code, tied to the same model functions -/
+
+maybe theorem tie_itermut_empty (s : Sys) : Gen.IterMut_empty s = (.ok Iter.empty, s) := rfl
+
+maybe theorem tie_itermut_advance_front_by (it : Iter) (count : Nat) (s : Sys) :
+    Gen.IterMut_advance_front_by it count s = Iter.advanceFrontBy it count s := by
+  tie [Gen.IterMut_advance_front_by, Iter.advanceFrontBy, View.takeTo]
+
+maybe theorem tie_itermut_advance_back_by (it : Iter) (count : Nat) (s : Sys) :
+    Gen.IterMut_advance_back_by it count s = Iter.advanceBackBy it count s := by
+  tie [Gen.IterMut_advance_back_by, Iter.advanceBackBy, View.takeFrom]
+
+maybe theorem tie_itermut_len (it : Iter) (s : Sys) : Gen.IterMut_len it s = Iter.len it s := by
+  tie [Gen.IterMut_len, Iter.len]
+
+maybe theorem tie_itermut_next (it : Iter) (s : Sys) : Gen.IterMut_next it s = (.ok (Iter.next it), s) := by
+  first
+  | rfl
+  | (obtain ⟨⟨ro, rl⟩, ⟨lo, ll⟩⟩ := it
+     simp only [Gen.IterMut_next, Iter.next, View.takeFirst, pure_run, bind_run]
+     by_cases h1 : rl > 0 <;> by_cases h2 : ll > 0 <;> simp [h1, h2, pure_run] <;> rfl)
+
+maybe theorem tie_itermut_next_back (it : Iter) (s : Sys) : Gen.IterMut_next_back it s = (.ok (Iter.nextBack it), s) := by
+  first
+  | rfl
+  | (obtain ⟨⟨ro, rl⟩, ⟨lo, ll⟩⟩ := it
+     simp only [Gen.IterMut_next_back, Iter.nextBack, View.takeLast, pure_run, bind_run]
+     by_cases h1 : rl > 0 <;> by_cases h2 : ll > 0 <;> simp [h1, h2, pure_run] <;> rfl)
+
+maybe theorem tie_itermut_new (s : Sys) (h : Inv s.buf) : Gen.IterMut_new s = Iter.new s := by
+  tie2 h [Gen.IterMut_new, Iter.new]
+
+maybe theorem tie_itermut_over_range (sb eb : Bound) (s : Sys) (h : Inv s.buf) :
+    Gen.IterMut_over_range sb eb s = Iter.overRange sb eb s := by
+  first
+  | rfl      -- (a body outside the subset is *defined* as the model's function)
+  | (
+     simp only [Gen.IterMut_over_range, Iter.overRange, bind_run, tie_translate_range_bounds sb eb s]
+     cases htr : translateRange sb eb s with
+     | mk r s1 => cases r with
+       | error p => rfl
+       | ok se =>
+         obtain ⟨st, en⟩ := se
+         have hs1 : s1 = s := by
+           have := translateRange_state sb eb s
+           rw [htr] at this
+           exact this
+         subst hs1
+         simp only [getBuf_bind, ite_run, bind_run, pure_run, tie_itermut_empty, tie_itermut_new s1 h, getBuf_run]
+         split
+         · rfl
+         · cases hn : Iter.new s1 with
+           | mk r2 s2 => cases r2 with
+             | error p => rfl
+             | ok it0 =>
+               simp only [tie_itermut_advance_front_by, tie_itermut_advance_back_by, liftE_bind])
+
+
 end CircBuf
